@@ -83,7 +83,8 @@ CLAIMED["C13"] = dict(
          "lastAction/_suicide and their copies). The timing quantifier (where the notification lands between polls, NFS "
          "latency) cannot be bounded statically and is not claimed."
          " The success test of the decision reads the task generated in the same pass and never a None."
-         " The cutoff of the new-output test is the recorded launch time of the previous execution (or a min including it); 'no retries left' holds for every non-positive counter.",
+         " The cutoff of the new-output test is the recorded launch time of the previous execution (or a min including it); 'no retries left' holds for every non-positive counter."
+         " The producers-finished stream is built from the producer components' notifyFinished (not the engines'); the flag is snapshotted before the new-output test of the pass. Two observed known findings are listed.",
     technique="CFG edge-dominance and must-pass-through, path-consistent product reachability over stable flags, "
               "reaching definitions of the snapshot, who-may-write",
     design="3/C13")
